@@ -153,14 +153,16 @@ class ProcPart(Part):
         for _ in range(nrand):
             items = "".join(rng.choice("uuubbgshi") for _ in range(rng.randint(1, 12)))
             lc = []
+            fresh = iter(range(700, 720))       # payloads are pairwise distinct within a scenario
             for _ in range(rng.randint(0, 2)):
-                lc.append((rng.randint(1, 3), rng.choice("ISSX"), rng.choice([["panic"], ["send", rng.randint(700, 720)], ["poison"], ["stop"], ["panic"]])))
+                lc.append((rng.randint(1, 3), rng.choice("ISSX"), rng.choice([["panic"], ["send", next(fresh)], ["poison"], ["stop"], ["panic"]])))
             lc = [l for l in lc if not (l[1] == "X" and l[2][0] in ("panic",))]
             if rng.random() < 0.2:
                 lc.append((rng.randint(1, 2), "X", rng.choice([["poison"], ["stop"]])))
             ops = []
+            fresh_op = iter(range(900, 920))
             for _ in range(rng.randint(0, 4)):
-                ops.append(rng.choice([("send", rng.randint(900, 920)), ("poison",), ("stop",)]))
+                ops.append(rng.choice([("send", next(fresh_op)), ("poison",), ("stop",)]))
             cases.append({"input": build_script(items, rng.randint(0, 3), rng.randrange(4), lifecycle=lc, ops=ops), "class": "random"})
         return cases
 
